@@ -1,8 +1,8 @@
-(** C02 (round 4) — get_rc and the RadiusExpand context on ITS graphs whose TOP-LEVEL labels may be (reactant, product)
+(** C02 (rounds 4-5) — get_rc and the RadiusExpand context on ITS graphs whose TOP-LEVEL labels may be (reactant, product)
     PAIRS, as ITSConstruction.construct(G, H) writes them with its own default store=True
     (element = ("C","C"), charge = (0,-1), aromatic / hcount / neighbors pairs; atom_map scalar; typesGH as usual).
-    get_rc copies label VALUES whatever their shape; only two tests look inside a node: _is_hh_pair compares the top-level
-    element with the string "H" (a pair is never equal to it), _add_charge_change_nodes reads typesGH.
+    get_rc copies label VALUES whatever their shape; only two tests look inside a node: _is_hh_pair / _is_hydrogen reads the
+    top-level element ("H", or the pair ("H","H") since the round-5 repair 01341f7), _add_charge_change_nodes reads typesGH.
     The functions are written once, generically in the node type ([get_rc_g]); [get_rc_S] is the instance for [snode].
     proof/C02_Store.v: lock-step agreement with [get_rc_x] of model/C02_Model.v on the flattened graph, labels copied
     unchanged.  Definitions only.  Imports C01's store=True construction (model/C01_Opts.v) read-only. *)
